@@ -296,6 +296,42 @@ def rule_no_foreign_table_writes(ctx, rid="R16.7"):
     return r
 
 
+def rule_api_writes_no_shared_state(ctx, rid="R16.9"):
+    """create, extend, check_schema, constructing a validator and the TypeChecker/FormatChecker probes keep no module- or
+    class-level state of their own: the only shared tables are the two registries written by validates() and the format
+    registries written by checks()."""
+    prog = ctx.prog
+    calls = calls_of(prog)
+    eff = effects_of(prog)
+    V = calls.V
+    roots = [prog.tables.create, prog.func("validators.extend"), V.methods["__init__"], V.methods["check_schema"],
+             prog.func("validators.validator_for")]
+    roots += [m for n, m in prog.cls("_types.TypeChecker").methods.items()]
+    roots += [prog.cls("_format.FormatChecker").methods[n] for n in ("__init__", "check", "conforms")]
+    allowed_writers = {"validators.validates._validates", "_format.FormatChecker.checks._checks"}
+    reach = calls.reachable(roots)
+    r = ctx.rule(rid, "deriving, constructing and probing write no module-level or class-level state (other than the registries, through their one writer)", floor=30)
+    for f in sorted(reach, key=lambda x: x.qual):
+        if f.qual in allowed_writers:
+            r.ok(site(f), "the registration writer")
+            continue
+        bad = []
+        for w, t in eff.nonlocal_writes(f):
+            if t[0] in ("G", "D", "M", "CLS"):
+                bad.append((w, t))
+            elif t[0] == "C":
+                # binding attributes of the class being created inside create() is construction, not sharing
+                if f is prog.tables.create and str(t[1]).endswith("create.Validator"):
+                    continue
+                bad.append((w, t))
+        if not bad:
+            r.ok(site(f), "")
+        for w, t in bad:
+            r.fail("%s|shared-state|%s" % (f.qual, w.text[:40]), site(f, w.node),
+                   "%s writes shared state %s (%s): what an earlier-created class/checker does then depends on later operations" % (f.qual, w.text[:50], t))
+    return r
+
+
 def run(ctx):
     ctx.explanation = (
         "C16 as ownership/aliasing rules: R16.1 create() binds fresh copies; R16.2 extend() writes nothing reachable from the "
@@ -311,3 +347,8 @@ def run(ctx):
     rule_formatchecker_owns(ctx)
     rule_four_checkers(ctx)
     rule_no_foreign_table_writes(ctx)
+    rule_api_writes_no_shared_state(ctx)
+    # R16.10: a resolver snapshots the registry at construction; nothing on the validation path reads the live registry, so a
+    # later registration cannot change what an existing validator resolves
+    from .c18 import rule_registry_read_only
+    rule_registry_read_only(ctx, "R16.10")
